@@ -29,7 +29,7 @@ func (p Persist) Store(ctx context.Context, name string, bytes []byte) error {
 	if os.IsNotExist(err) {
 		return os.WriteFile(filepath.Join(p.basepath, name), bytes, 0644)
 	}
-	return nil
+	return err
 }
 
 // NewPersistForPath returns a Persist that loads and stores nodes as
